@@ -275,6 +275,11 @@ def gen_model_case(seed, big):
         i = rng.randrange(len(ops))
         ops.insert(i, ['rule', 0, 2 * rng.randrange(400)])
         ops.insert(rng.randint(i + 1, len(ops)), ['rule', 1, 2 * rng.randrange(400) + 1])
+    if caller and rng.random() < 0.5:
+        # a model is replaced by a freshly loaded one (the old one and its unit store are discarded and collected) while a
+        # model created AFTER it is still alive; then both define the same user name with different meanings
+        last = len(files) - 1
+        ops[0:0] = [['clashunit', last, 0], ['load', 0, rng.randrange(1000)], ['clashunit', 0, 0], ['print', last, 0]]
     return {'seed': seed, 'files': files, 'ops': ops, 'caller_store': caller}
 
 
@@ -290,7 +295,22 @@ def apply_model_op(models, op, rng_seed, caller=None):
     rng = random.Random(rng_seed * 1000 + salt)
     try:
         if kind == 'load':
+            models[idx] = None
+            import gc
+            gc.collect()        # the replaced model and its unit store are really gone before the next one is created
             models[idx] = cellmlmanip.load_model(os.path.join(CELLML, rng.choice(SMALL_MODELS)), unit_store=caller)
+        elif kind == 'clashunit':
+            # one user name, another meaning in every model
+            base_, fac_ = [('volt', 0.001), ('second', 60.0), ('ampere', 1e-6)][idx % 3]
+            if not m.units.is_defined('rc_u'):
+                m.units.add_unit('rc_u', '%s * %r' % (base_, fac_))
+                try:
+                    got = float(m.units.get_conversion_factor(m.units.get_unit('rc_u'), m.units.get_unit(base_)))
+                except Exception as e:
+                    got = repr(e)
+                if not (isinstance(got, float) and math.isclose(got, fac_, rel_tol=1e-9)):
+                    return ('clashunit:XVIOLATION:model %d defines rc_u = %r %s, but its rc_u converts to %s with %s: the definition of '
+                            'another model / store is in the way' % (idx, fac_, base_, base_, got))
         elif kind == 'convert':
             vs = [v for v in m.variables()]
             v = rng.choice(vs)
@@ -455,6 +475,56 @@ def model_work(case):
     return bad, hist
 
 
+def run_store_gc(k):
+    """stores on one shared registry are created, DISCARDED (and collected) and created again; every live store keeps its own
+    meaning of the user name they all define, and units of two stores convert with the ratio of their scales"""
+    import gc
+    from cellmlmanip.units import UnitStore
+    rng = random.Random(k)
+    root = UnitStore()
+    live = {}
+    bad = []
+    scales = ['1000', '0.001', '1e-06', '60', '2.5', '1e-09', '7']
+
+    def new_store(tag):
+        st = UnitStore(root)
+        sc = rng.choice(scales)
+        st.add_unit('mV', 'volt * ' + sc)
+        st.add_unit('mV_per_ms', 'mV / (second * 0.001)')
+        live[tag] = (st, float(sc))
+    for i in range(rng.randint(2, 4)):
+        new_store('s%d' % i)
+    for step in range(rng.randint(2, 5)):
+        tags = sorted(live)
+        if len(tags) >= 2 and rng.random() < 0.6:
+            victim = rng.choice(tags[:-1])            # never the newest one
+            del live[victim]
+            gc.collect()
+        new_store('n%d' % step)
+        volt = root.get_unit('volt')
+        for tag, (st, sc) in sorted(live.items()):
+            try:
+                got = float(st.get_conversion_factor(st.get_unit('mV'), volt))
+            except Exception as e:
+                got = repr(e)
+            if not (isinstance(got, float) and math.isclose(got, sc, rel_tol=1e-9)):
+                bad.append(('after stores were discarded and created on one registry, store %s (mV = %r volt) converts its mV to volt '
+                            'with %s' % (tag, sc, got), {'store_gc': k}))
+                return bad
+        a, b = rng.sample(sorted(live), 2) if len(live) >= 2 else (None, None)
+        if a:
+            (sa, ca), (sb, cb) = live[a], live[b]
+            try:
+                got = float(sa.get_conversion_factor(sa.get_unit('mV_per_ms'), sb.get_unit('mV_per_ms')))
+            except Exception as e:
+                got = repr(e)
+            if not (isinstance(got, float) and math.isclose(got, ca / cb, rel_tol=1e-9)):
+                bad.append(('units of stores %s and %s (mV = %r / %r volt) convert with %s instead of %r' % (a, b, ca, cb, got, ca / cb),
+                            {'store_gc': k}))
+                return bad
+    return bad
+
+
 def run(ctx):
     ns = 40 if ctx.tier == 'quick' else 600
     nm = 40 if ctx.tier == 'quick' else 500
@@ -505,6 +575,11 @@ def run(ctx):
         for what, detail in bad:
             ctx.violation(what, {'model_case': case, 'detail': detail})
     ctx.sample({'model_case': mcases[0]})
+    gks = [ctx.seed * 1000 + i for i in range(40 if ctx.tier == 'quick' else 500)]
+    for gk, bad in zip(gks, vlib.pmap(run_store_gc, gks)):
+        ctx.count(case_key=('store-gc', gk), nontrivial=True, kind='store-gc')
+        for what, detail in bad:
+            ctx.violation(what, detail)
     # (c) models built through the API (separate registries), singularities repaired one after another in one process:
     # a number in model B's equations that belongs to model A's registry is work on A changing what B gets
     from props import c18
@@ -523,6 +598,9 @@ def load_corpus(kind):
 
 
 def replay(ctx, case):
+    if 'store_gc' in case:
+        bad = run_store_gc(case['store_gc'])
+        return bad[0][0] if bad else None
     if 'api_singular_seed' in case:
         from props import c18
         bad = c18.run_api_singular(case['api_singular_seed'])
